@@ -1818,11 +1818,14 @@ class ForAll(QuantifiedConditional):
 
     @cached_property
     def condition_unique_variable_ids(self) -> List[int]:
+        # a predicate / symbolic function call is computed from its arguments: carrying its result to the next value of
+        # the quantified expression would answer that value with the result of the previous one
         return [
             v.id_
             for v in self.condition._unique_variables_.difference(
                 self.left._unique_variables_
             )
+            if not v.value._predicate_type_
         ]
 
     def _evaluate__(
